@@ -120,6 +120,12 @@ DATA_OBJS = [
     ('o27', 'static int o27[4]'), ('o28', '_Thread_local int o28 = 5'), ('o31', '_Bool o31 = 1'),
     ('o32', 'unsigned o32[] = U"x"'), ('o33', 'struct { char a; long b; char c; } o33 = {1, 2, 3}'), ('o34', 'struct { char a; } o34[3] = {{1}, {2}, {3}}'),
     ('o35', 'const char *const o35[] = {"a", "bc", 0}'), ('o36', 'double o36[3] = {[2] = 1e300}'),
+    ('o40', 'unsigned short o40[8] = u"ab"'), ('o41', 'unsigned o41[8] = U"ab"'), ('o42', 'typeof(L\' \') o42[6] = L"abc"'),
+    ('o43', 'struct { unsigned short w[6]; char t; } o43 = { u"ab", 7 }'), ('o44', 'unsigned o44[2][4] = { U"a", U"bc" }'),
+    ('o45', 'char o45[2][5] = { "a", "bcd" }'), ('o46', 'struct { char c[7]; int i; } o46[2] = { { "ab", 1 }, { "cdefgh", 2 } }'),
+    ('o47', 'unsigned short o47[3] = u"abc"'), ('o48', 'char o48[9] = ""'), ('o49', 'unsigned o49[5] = U""'),
+    ('o50', 'struct { int a : 7; int b : 9; int c : 17; char d; } o50 = { 1, 2, 3, 4 }'), ('o51', 'struct { long l : 40; short s; } o51 = { 5, 6 }'),
+    ('o52', 'union { char c[3]; short s; } o52 = { "ab" }'), ('o53', 'long double o53'), ('o54', 'struct { char c; long double ld; } o54'),
 ]
 
 
